@@ -4,6 +4,7 @@ import BSEModel.Api
 import BSEModel.Index
 import BSEModel.Refs
 import BSEModel.AddBasis
+import BSEModel.Notation
 open Lean BSE BSE.Drv BSE.Compose
 
 namespace BSE.Drv.Store
@@ -27,7 +28,50 @@ def optStr (j : Json) (k : String) : Option String :=
   | .ok (Json.str s) => some s
   | _ => none
 
+/-- `misc.expand_elements(k, True)` through the notation model of C20 -/
+def expandModel (k : String) : Except PyErr (List String) :=
+  match BSE.Notation.expandStr k.toList with
+  | .ok zs => .ok (zs.map toString)
+  | .error .runtime => .error .runtime
+  | .error .key => .error .key
+  | .error .value => .error .value
+  | .error .type => .error .type
+
+def decodeRefs (j : Json) : Except String BSE.AddBasis.RefSpec := do
+  match ← getStr j "kind" with
+  | "none" => pure .none
+  | "one" => pure (.one (← getStr j "key"))
+  | "many" => pure (.many (← getStrList j "keys"))
+  | "map" =>
+    let ps ← (← getArr j "pairs").mapM fun p => do
+      match p with
+      | .arr #[.str k, .str v] => pure (k, BSE.AddBasis.RefVal.one v)
+      | .arr #[.str k, .arr vs] => do
+        let ks ← vs.toList.mapM fun x => match x with | .str s => pure s | _ => throw "reference key"
+        pure (k, BSE.AddBasis.RefVal.many ks)
+      | _ => throw "reference pair"
+    pure (.map ps)
+  | _ => pure .other
+
 def handlers : List (String × Handler) := [
+  ("add_basis_from_dict", fun j => do
+    let files ← decodeFiles j
+    let bs ← match ← toJ (← j.getObjVal? "basis") with
+      | .obj kvs => pure kvs
+      | _ => throw "basis must be an object"
+    let rq ← j.getObjVal? "req"
+    let r : BSE.AddBasis.DictReq := {
+      subdir := ← getStr rq "subdir", fileBase := ← getStr rq "file_base", name := ← getStr rq "name",
+      family := ← getStr rq "family", role := ← getStr rq "role", description := ← getStr rq "description", version := ← getStr rq "version",
+      revdesc := ← getStr rq "revision_description", dataSource := ← getStr rq "data_source", today := ← getStr rq "today" }
+    let refs ← decodeRefs (← j.getObjVal? "refs")
+    let run (v : Bool) :=
+      let (fs, err) := BSE.AddBasis.addBasisFromDict expandModel (fun _ => v) files bs r refs
+      obj [("files", ofJ (.obj fs)), ("raise", match err with | some e => Json.str e.name | none => Json.null)]
+    let comp := match BSE.AddBasis.componentOf expandModel bs r refs with
+      | .ok c => ofJ (.obj c)
+      | .error e => obj [("raise", Json.str e.name)]
+    pure (obj [("component", comp), ("if_valid", run true), ("if_invalid", run false), ("comp_rel", Json.str r.compRel)])),
   ("add_from_components", fun j => do
     let files ← decodeFiles j
     let rq ← j.getObjVal? "req"
